@@ -134,6 +134,7 @@ class Daemon:
         self.banner = []     # V banner .. first barrier
         self.ifd = None
         self.died = False
+        self.eol = b"\n"         # the server may also end its lines with CR LF
 
     # ---------------------------------------------------------------- io
     def _readline(self, timeout=IO_TIMEOUT):
@@ -179,7 +180,7 @@ class Daemon:
         return self.banner
 
     def barrier(self):
-        self._write(BARRIER)
+        self._write(BARRIER[:-1] + self.eol)
         out, stats = [], []
         in_block = False
         while True:
@@ -209,7 +210,7 @@ class Daemon:
         """Write one input line, then a barrier; returns (out, in_use, stats)."""
         if isinstance(line, str):
             line = line.encode("latin-1")
-        self._write(line + b"\n")
+        self._write(line + self.eol)
         return self.barrier()
 
     def drain(self, settle=0.05):
